@@ -460,14 +460,17 @@ class List(list, base.Symbolic, pg_typing.CustomTyping):
       if old_value is value:
         return None
 
-    new_value = self._formalized_value(index, value)
+    # NOTE: an insertion / append is refused before the value is adopted as a
+    # child (`_formalized_value` sets its parent).
     if index < len(self):
       if should_insert:
         if self.max_size is not None and len(self) >= self.max_size:
           raise ValueError(f'List reached its max size {self.max_size}.')
+        new_value = self._formalized_value(index, value)
         list.insert(self, index, new_value)
         self._update_children_index()
       else:
+        new_value = self._formalized_value(index, value)
         # Storing MISSING_VALUE removes the item (see `_on_change`).
         if pg_typing.MISSING_VALUE == new_value and self._value_spec:
           num_items = sum(
@@ -484,6 +487,7 @@ class List(list, base.Symbolic, pg_typing.CustomTyping):
     else:
       if self.max_size is not None and len(self) >= self.max_size:
         raise ValueError(f'List reached its max size {self.max_size}.')
+      new_value = self._formalized_value(index, value)
       super().append(new_value)
     return base.FieldUpdate(
         self.sym_path + index, self,
